@@ -1,7 +1,10 @@
+\* model checking and case generation in one run
 CONSTANTS
   MapDevs = {}
   Dev = {}
   MaxEntries = 2
 SPECIFICATION GenSpec
 VIEW View
+INVARIANT Metamorphic
+INVARIANT ReaderContextAgrees
 CHECK_DEADLOCK FALSE
